@@ -150,6 +150,103 @@ def check_self_comparison(prog, res):
     res.floor("comparison call sites", n, 300)
 
 
+# ---- R12.5: the import functions of a ring test the imported value, not something computed from it
+class ImportTested(ir.Client):
+    """state: (buffer holding the freshly imported octets or None, was it range-tested while fresh)"""
+
+    def __init__(self, f, prog, src):
+        from . import vp
+        self.f, self.prog, self.src = f, prog, src
+        self.canon = vp.Canon(f)
+        self.success = []
+
+    def init(self, func):
+        return (None, False)
+
+    def _calls(self, e, st):
+        fresh, ok = st
+        for c in reversed([n for n in ir.walk(e) if n.get("k") == "Call"]):
+            cn = c.get("callee") or ""
+            if cn == "utilAssert":
+                continue
+            names = [self.canon(a) for a in c["a"]]
+            if cn in ("wwFrom", "u32From", "u64From", "memCopy", "memMove") and len(names) >= 2 and names[1] == self.src:
+                fresh = names[0]
+                continue
+            proto = self.prog.proto(cn, self.f.unit) if cn else None
+            for i, a in enumerate(c["a"]):
+                if names[i] == fresh and strip(a).get("p"):
+                    const = proto is not None and i < len(proto.params) and proto.params[i].get("pc")
+                    if not const and cn not in ("wwCmp", "wwIsZero", "wwBitSize", "wwEq"):
+                        fresh = None           # the imported value was changed before it was tested
+        return (fresh, ok)
+
+    def _tests(self, c, st):
+        fresh, ok = st
+        if fresh is None:
+            return st
+        for n in ir.walk(c):
+            if n.get("k") == "Call" and n.get("callee") in ("wwCmp",) and n["a"] and self.canon(n["a"][0]) == fresh:
+                ok = True
+        return (fresh, ok)
+
+    def eval(self, e, st, env, node):
+        return self._calls(e, st)
+
+    def assume(self, c, pol, st, env, node):
+        st = self._calls(c, st)
+        return self._tests(c, st) if pol else st
+
+    def ret(self, e, st, env, node):
+        if e is not None:
+            st2 = self._tests(e, self._calls(e, st))
+            v = ir.eval_abs(e, env)
+            if v == ("c", 0):
+                return st
+            self.success.append((node.line, st2[1]))
+            return st2
+        return st
+
+
+def check_import_tested(prog, res):
+    """R12.5: every function installed in a ring's `from` slot (zmFrom, zmFromMont, gf2From) compares the value it
+    has just loaded from the caller's octets with the modulus while that value is still what was loaded; a test applied
+    after a reduction is always true and lets every octet string through (sibling agreement of the slot's functions)."""
+    slot = set()
+    for f in prog.all_funcs():
+        if f.body is None or not f.relfile.startswith("src/math/"):
+            continue
+        for n in ir.walk(f.body):
+            if n.get("k") == "Bin" and n.get("op") == "=" and strip(n["x"]).get("k") == "Member" and strip(n["x"]).get("f") == "from":
+                r = strip(n["y"])
+                if r.get("k") == "Ref" and r.get("n"):
+                    slot.add(r["n"])
+    if len(slot) < 3:
+        raise AnalysisBroken("fewer than three functions installed in a `from` slot: %s" % sorted(slot))
+    n = 0
+    for name in sorted(slot):
+        f = next((g for g in prog.all_funcs() if g.name == name and g.body is not None), None)
+        if f is None or len(f.params) < 2:
+            raise AnalysisBroken("import function %s not found" % name)
+        cl = ImportTested(f, prog, f.params[1]["n"])
+        r = ir.run_paths(f, cl)
+        if not cl.success:
+            raise AnalysisBroken("%s: no success return reached" % name)
+        n += 1
+        bad = [ln for ln, ok in cl.success if not ok]
+        if bad:
+            res.violation("R12.5-import-tested-while-fresh", function=name, file=f.relfile, line=bad[0],
+                          construct="success without a range test of the imported value",
+                          detail="%s can report success (line %d) although the value loaded from `%s` was not compared with the "
+                                 "modulus before it was changed: out-of-range octets are accepted as field elements" %
+                                 (name, bad[0], f.params[1]["n"]))
+        else:
+            res.proved("R12.5-import-tested-while-fresh", function=name, file=f.relfile, line=f.line,
+                       construct="%d success return(s) after the range test" % len(cl.success),
+                       detail="the value loaded from the caller's octets is compared with the modulus before anything else writes it")
+    return n
+
+
 def run(tier, seed=0):
     res = Result("C12", "other", tier)
     prog = ir.Program("w64")
@@ -158,6 +255,7 @@ def run(tier, seed=0):
     check_digits(prog, res)
     check_rm_iterations(prog, res)
     check_self_comparison(prog, res)
+    check_import_tested(prog, res)
     res.floor("validator obligations", n, 60)
     res.coverage["explanation"] = (
         "For each of %d validators the multiset of sub-checks (callee, literal arguments, polarity) accepted on the "
